@@ -851,6 +851,57 @@ def _trunc(v):
     return R(z3.If(t >= 0, fl, -z3.ToReal(z3.ToInt(-t))))
 
 
+class MaskSel:
+    """lazy result of indexing a 1-D array with a SYMBOLIC boolean mask (used when
+    ctx().lazy_masks is set): the full value list travels with the mask, arithmetic
+    is element-wise, and storing it back under the same mask is an if-then-else"""
+
+    def __init__(self, vals, mask):
+        self.vals = list(vals)
+        self.mask = list(mask)
+
+    def _bin(self, o, f):
+        if isinstance(o, MaskSel):
+            return MaskSel([f(a, b) for a, b in zip(self.vals, o.vals)], self.mask)
+        return MaskSel([f(a, o) for a in self.vals], self.mask)
+
+    def __add__(self, o):
+        return self._bin(o, lambda a, b: a + b)
+
+    __radd__ = __add__
+
+    def __sub__(self, o):
+        return self._bin(o, lambda a, b: a - b)
+
+    def __rsub__(self, o):
+        return self._bin(o, lambda a, b: b - a)
+
+    def __mul__(self, o):
+        return self._bin(o, lambda a, b: a * b)
+
+    __rmul__ = __mul__
+
+    def __truediv__(self, o):
+        return self._bin(o, lambda a, b: a / b)
+
+    def __rtruediv__(self, o):
+        return self._bin(o, lambda a, b: b / a)
+
+    def __pow__(self, o):
+        return self._bin(o, lambda a, b: a ** b)
+
+    def __neg__(self):
+        return MaskSel([-a for a in self.vals], self.mask)
+
+
+def _symbolic_mask(key):
+    return isinstance(key, np.ndarray) and key.dtype == object and key.ndim == 1 and any(isinstance(e, B) for e in key.ravel())
+
+
+def _bt(e):
+    return e.t if isinstance(e, B) else z3.BoolVal(bool(e))
+
+
 class XArr(np.ndarray):
     """object ndarray of R / C; ikind marks arrays that numpy would hold as an
     integer dtype (values stored into them are truncated, as numpy casts)"""
@@ -861,10 +912,20 @@ class XArr(np.ndarray):
         self.ikind = False
 
     def __getitem__(self, key):
+        if getattr(ctx(), "lazy_masks", False) and _symbolic_mask(key) and self.ndim == 1:
+            return MaskSel([np.ndarray.__getitem__(self, i) for i in range(self.shape[0])], list(key))
         r = np.ndarray.__getitem__(self, _concrete_key(key))
         return r
 
     def __setitem__(self, key, val):
+        if getattr(ctx(), "lazy_masks", False) and _symbolic_mask(key) and self.ndim == 1:
+            c_ = ctx()
+            c_.__dict__.setdefault("masked_stores", []).append((list(key), val))
+            for i in range(self.shape[0]):
+                new = val.vals[i] if isinstance(val, MaskSel) else val
+                old = np.ndarray.__getitem__(self, i)
+                np.ndarray.__setitem__(self, i, ite(key[i] if isinstance(key[i], B) else bool(key[i]), new, old))
+            return
         if self.ikind:
             c_ = ctx()
             c_.truncations = getattr(c_, "truncations", 0) + 1
@@ -1073,6 +1134,10 @@ class XNP:
         return out
 
     def nanmedian(self, a, *args, **k):
+        if isinstance(a, MaskSel):
+            tok = R(ctx().fresh("median"))
+            ctx().__dict__.setdefault("median_selections", []).append((a.mask, a.vals, tok))
+            return tok
         # median of a (symbolic) selection: an uninterpreted function of the selected entries
         vals = [zt(e) for e in np.ravel(np.asarray(a, dtype=object))]
         if not vals:
